@@ -569,6 +569,20 @@ def engine_selftests(meta, tier, seed):
             out["repository_tests_under_interpreter"] = {"exit": p.returncode, "summary": tail}
             if p.returncode != 0:
                 errors.append("engine self-test: the repository's test-suite does not pass under the interpreter: %s" % tail)
+        if meta.get("pinned_models"):
+            # split / normpath of ropes with symbolic parts, through the real runner, on pinned inputs (harness/selftest_models.py)
+            import selftest_models
+            sj = selftest_models.jobs(tier, seed)
+            if tier != "thorough":
+                sj = sj[seed % 3::3]
+            bad = []
+            for j in sj:
+                r = run_job({"prop": "selftest", "module": "selftest_models", "job": j, "tier": tier, "seed": seed})
+                if "crash" in r or r["violations"] or r["spurious"] or r["path_reasons"] or not r["paths"].get("ok"):
+                    bad.append(j["params"])
+            out["path_models_pinned"] = {"cases": len(sj), "failures": len(bad)}
+            for b in bad[:5]:
+                errors.append("engine self-test: split/normpath model disagrees with CPython on %s" % json.dumps(b))
         if meta.get("fp_lemma"):
             r3 = selftest.lemma_int_float_roundtrip()
             out["lemma_int_float_roundtrip"] = r3
